@@ -548,5 +548,5 @@ def strategy(draw):
 
 PHASES = [
     Phase("figures", run_case, strategy=strategy,
-          examples={"quick": 1600, "thorough": 16000}),
+          examples={"quick": 1600, "thorough": 50000}),
 ]
